@@ -200,6 +200,74 @@ Proof.
     rewrite (view_id _ _ V2), (view_id _ _ V1). split; [exact Hc|reflexivity].
 Qed.
 
+(* what sync_detect::<t> reads when it queues an entry: a synchronised entity, carrying t, not
+   excluded for t, in the state in which the detector runs *)
+Definition detect_witness (pr : peer_state) (t : tyid) (x : uuid * tyid * value) : Prop :=
+  exists e en c, p_ents pr !! e = Some en /\ en_sync en = Some x.1.1 /\
+    en_comps en !! t = Some c /\ ~ In t (en_excl en) /\
+    match c_val c with
+    | VSkin j p => x.1.2 = T_MAPPER /\ x.2 = to_skinned_mapper pr j p
+    | v => x.1.2 = t /\ x.2 = v
+    end.
+
+Lemma signal_e2u pr u t v : t_e2u (signal_component_changed pr u t v) = t_e2u pr.
+Proof. unfold signal_component_changed. destruct (mem_pair (u, t) (t_ctok pr)); reflexivity. Qed.
+
+Lemma signal_queue pr u t v x :
+  In x (t_queue (signal_component_changed pr u t v)) -> In x (t_queue pr) \/ x = (u, t, v).
+Proof.
+  unfold signal_component_changed. destruct (mem_pair (u, t) (t_ctok pr)); cbn [t_queue set]; [tauto|].
+  intros H. apply in_app_or in H as [H|[<-|[]]]; tauto.
+Qed.
+
+(* the asset switch a react system is gated by *)
+Definition asset_gate (mat mesh audio : bool) (s : sysid) : Prop :=
+  match s with
+  | SSrvMat | SCliMat | SSrvImg | SCliImg => mat = true
+  | SSrvMesh | SCliMesh => mesh = true
+  | SSrvAudio | SCliAudio => audio = true
+  | _ => True
+  end.
+
+Lemma sync_detect_adds pr t last x :
+  In x (t_queue (sync_detect pr t last)) -> In x (t_queue pr) \/ detect_witness pr t x.
+Proof.
+  unfold sync_detect.
+  refine (proj2 (foldl_inv (fun a => t_e2u a = t_e2u pr /\
+            (In x (t_queue a) -> In x (t_queue pr) \/ detect_witness pr t x)) _ _ _ _ _));
+    [split; [reflexivity|tauto]|].
+  intros a [e en] Hin [He Hq]. apply In_map_to_list in Hin.
+  destruct (en_sync en) as [u|] eqn:E1; [|split; assumption].
+  destruct (en_comps en !! t) as [c|] eqn:E2; [|split; assumption].
+  destruct (negb (memN t (en_excl en)) && ((last <? c_changed c) || (last <? en_sync_added en))) eqn:E3;
+    [|split; assumption].
+  apply andb_true_iff in E3 as [E3 _]. apply negb_true_iff in E3.
+  assert (Hne : ~ In t (en_excl en)) by (intros Hx; apply memN_In in Hx; congruence).
+  destruct (c_val c) as [n|j p|j p] eqn:Ev; (split; [rewrite signal_e2u; exact He|]);
+    intros Hx; apply signal_queue in Hx as [Hx| ->]; try (apply Hq; exact Hx);
+    right; exists e, en, c; rewrite Ev; cbn [fst snd];
+    (split; [exact Hin|split; [exact E1|split; [exact E2|split; [exact Hne|]]]]).
+  - split; reflexivity.
+  - split; [reflexivity|]. unfold to_skinned_mapper. rewrite He. reflexivity.
+  - split; reflexivity.
+Qed.
+
+(* the states a frame goes through: after PreUpdate and StateTransition, and after a prefix
+   of the Update schedule *)
+Definition frame_start (pr : peer_state) (o : frame_oracle) : peer_state :=
+  state_transition (pre_update (pr <| p_out := [] |>) o).
+Definition frame_mid (pr : peer_state) (o : frame_oracle) (pre : list sysid) : peer_state :=
+  foldl (fun pr s => run_system pr s o) (frame_start pr o) pre.
+
+Lemma frame_unfold pr o :
+  p_panic pr = None ->
+  frame pr o =
+  last_schedule (match p_panic (frame_mid pr o (p_order (frame_start pr o))) with
+                 | Some _ => frame_mid pr o (p_order (frame_start pr o))
+                 | None => flush (frame_mid pr o (p_order (frame_start pr o)))
+                 end).
+Proof. intros Hp. unfold frame. rewrite Hp. reflexivity. Qed.
+
 Section invariant.
   (* the configuration of the peer during the frame *)
   Variable types : list tyid.
@@ -219,6 +287,8 @@ Section invariant.
   (* typing of component values, and what a skinned-mesh value under a registered type implies *)
   Variable vt : tyid -> value -> Prop.
   Variable skinreg : Prop.
+  (* the commands application systems may issue *)
+  Variable appP : cmd -> Prop.
 
   Hypothesis inb_spawn : forall u, inb (MSpawn u) -> known u.
   Hypothesis inb_vt : forall u t v, inb (MComp u t v) -> vt t v.
@@ -256,6 +326,8 @@ Section invariant.
     | _ => True
     end.
 
+  Hypothesis app_cmd_ok : forall c, appP c -> cmd_ok c.
+
   Definition ent_ok (e : ent) (en : entity) : Prop :=
     (forall u, en_sync en = Some u -> known u) /\
     (en_mark en <> None -> markP e) /\
@@ -270,7 +342,7 @@ Section invariant.
     i_order : p_order pr = order;
     i_out : forall d m, In (d, m) (p_out pr) -> msg_ok m;
     i_cmdq : forall k cs c, p_cmdq pr !! k = Some cs -> In c cs -> cmd_ok c;
-    i_app : forall n c, In (n, c) (p_app_cmds pr) -> cmd_ok c;
+    i_app : forall n c, In (n, c) (p_app_cmds pr) -> appP c;
     i_queue : forall x, In x (t_queue pr) -> qP x;
     i_inbox : forall from l m, n_inbox pr !! from = Some l -> In m l -> inb m;
     i_u2e : forall u e, t_u2e pr !! u = Some e -> known u;
@@ -290,7 +362,11 @@ Section invariant.
   Qed.
 
   Ltac irr := (eapply Inv_view; [|eassumption]; reflexivity).
-  Ltac dm := match goal with |- context [match ?x with _ => _ end] => destruct x eqn:?; cbv beta iota end.
+  Ltac dm := match goal with |- context [match ?x with _ => _ end] =>
+    lazymatch x with
+    | context [match _ with _ => _ end] => fail
+    | _ => destruct x eqn:?; cbv beta iota
+    end end.
 
   (* ---- setters of the relevant fields ---- *)
 
@@ -303,7 +379,7 @@ Section invariant.
   Proof. intros [] Ho. constructor; try assumption. Qed.
 
   Lemma Inv_set_app pr q :
-    Inv pr -> (forall n c, In (n, c) q -> cmd_ok c) -> Inv (pr <| p_app_cmds := q |>).
+    Inv pr -> (forall n c, In (n, c) q -> appP c) -> Inv (pr <| p_app_cmds := q |>).
   Proof. intros [] Ho. constructor; try assumption. Qed.
 
   Lemma Inv_set_queue pr q :
@@ -571,6 +647,370 @@ Section invariant.
     - apply Inv_set_cmdq; [exact Ha|]. intros k' cs' c' Hl Hin.
       apply lookup_delete_Some in Hl as [_ Hl]. eapply i_cmdq; eassumption.
     - intros c Hc. eapply i_cmdq; eassumption.
+  Qed.
+
+  Ltac inv_auto := repeat first [exact I | inv_step].
+
+  Lemma Inv_track pr u e :
+    Inv pr -> known u -> keyP e ->
+    Inv (pr <| t_u2e := <[u := e]> (t_u2e pr) |> <| t_e2u := <[e := u]> (t_e2u pr) |>).
+  Proof.
+    intros HI Hu He. apply Inv_set_e2u; [apply Inv_set_u2e; [exact HI|]|].
+    - intros u' e' Hl. destruct (decide (u' = u)) as [->|Hne]; [exact Hu|].
+      rewrite lookup_insert_ne in Hl by congruence. eapply i_u2e; eassumption.
+    - intros e' u' Hl. destruct (decide (e' = e)) as [->|Hne].
+      + rewrite lookup_insert in Hl. injection Hl as <-. split; assumption.
+      + rewrite lookup_insert_ne in Hl by congruence. eapply i_e2u; eassumption.
+  Qed.
+
+  Lemma Inv_untrack pr u e :
+    Inv pr -> Inv (pr <| t_u2e := delete u (t_u2e pr) |> <| t_e2u := delete e (t_e2u pr) |>).
+  Proof.
+    intros HI. apply Inv_set_e2u; [apply Inv_set_u2e; [exact HI|]|].
+    - intros u' e' Hl. apply lookup_delete_Some in Hl as [_ Hl]. eapply i_u2e; eassumption.
+    - intros e' u' Hl. apply lookup_delete_Some in Hl as [_ Hl]. eapply i_e2u; eassumption.
+  Qed.
+
+  (* ---- systems ---- *)
+
+  Lemma Inv_entity_created server pr k last : Inv pr -> Inv (entity_created server pr k last).
+  Proof.
+    intros HI. unfold entity_created. apply foldl_inv; [exact HI|].
+    intros a [e en] Hin Ha. destruct (newly_marked last en) eqn:Hn; [|exact Ha]. cbv zeta.
+    assert (Hm : markP e).
+    { apply In_map_to_list in Hin. destruct (i_ents pr HI _ _ Hin) as (_ & Hm & _).
+      apply Hm. unfold newly_marked in Hn. destruct (en_mark en); [discriminate|discriminate]. }
+    apply Inv_push_cmd; [|apply mark_known; exact Hm].
+    destruct server.
+    - apply Inv_track; [|apply mark_known; exact Hm|apply mark_key; exact Hm].
+      apply Inv_broadcast; [exact Ha|]. right. apply mark_known; exact Hm.
+    - apply Inv_send_up; [|right; apply mark_known; exact Hm].
+      apply Inv_track; [exact Ha|apply mark_known; exact Hm|apply mark_key; exact Hm].
+  Qed.
+
+  Lemma Inv_entity_removed_server pr : Inv pr -> Inv (entity_removed_server pr).
+  Proof.
+    intros HI. unfold entity_removed_server. cbv zeta. apply foldl_inv.
+    - apply Inv_set_e2u; [exact HI|]. intros e u Hl. apply foldl_delete_lookup in Hl.
+      eapply i_e2u; eassumption.
+    - intros a u Hin Ha. apply elem_of_list_In in Hin. rewrite elem_of_remove_dups in Hin.
+      apply elem_of_list_fmap in Hin as ([e u'] & -> & Hin). apply elem_of_list_filter in Hin as [_ Hin].
+      apply elem_of_map_to_list in Hin. destruct (i_e2u pr HI _ _ Hin) as [Hk _].
+      apply Inv_broadcast; [|right; exact Hk]. apply Inv_set_u2e; [exact Ha|].
+      intros u2 e2 Hl. apply lookup_delete_Some in Hl as [_ Hl]. eapply i_u2e; eassumption.
+  Qed.
+
+  Lemma Inv_entity_removed_client pr : Inv pr -> Inv (entity_removed_client pr).
+  Proof.
+    intros HI. unfold entity_removed_client. cbv zeta. apply foldl_inv.
+    - apply Inv_set_u2e; [exact HI|]. intros u e Hl. apply foldl_delete_lookup in Hl.
+      eapply i_u2e; eassumption.
+    - intros a [u e] Hin Ha. apply elem_of_list_In in Hin. apply elem_of_list_filter in Hin as [_ Hin].
+      apply elem_of_map_to_list in Hin. apply Inv_send_up; [exact Ha|]. right. eapply (i_u2e pr HI); eassumption.
+  Qed.
+
+  Lemma Inv_entity_parented_server pr last : Inv pr -> Inv (entity_parented_server pr last).
+  Proof.
+    intros HI. unfold entity_parented_server. apply foldl_inv; [exact HI|].
+    intros a [e en] _ Ha. destruct (parent_changed last en) as [p|]; [|exact Ha].
+    destruct (t_e2u a !! e) as [u|] eqn:E1; [|exact Ha].
+    destruct (t_e2u a !! p) as [pu|] eqn:E2; [|exact Ha].
+    apply Inv_broadcast; [exact Ha|]. right.
+    split; [eapply (i_e2u a Ha); eassumption|eapply (i_e2u a Ha); eassumption].
+  Qed.
+
+  Lemma Inv_entity_parented_client pr last : Inv pr -> Inv (entity_parented_client pr last).
+  Proof.
+    intros HI. unfold entity_parented_client. apply foldl_inv; [exact HI|].
+    intros a [e en] Hin Ha. destruct (parent_changed last en) as [p|]; [|exact Ha].
+    destruct (en_sync en) as [u|] eqn:E1; [|exact Ha].
+    destruct (p_ents a !! p) as [pen|] eqn:E2; [|exact Ha].
+    destruct (en_sync pen) as [pu|] eqn:E3; [|exact Ha].
+    destruct (en_children pen); [exact Ha|].
+    apply Inv_send_up; [exact Ha|]. right. split.
+    - apply In_map_to_list in Hin. destruct (i_ents pr HI _ _ Hin) as (Hs & _). apply Hs. exact E1.
+    - destruct (i_ents a Ha _ _ E2) as (Hs & _). apply Hs. exact E3.
+  Qed.
+
+  Lemma Inv_sync_detect pr t last :
+    Inv pr -> (forall x, detect_witness pr t x -> qP x) -> Inv (sync_detect pr t last).
+  Proof.
+    intros HI Hw. unfold sync_detect.
+    refine (proj1 (foldl_inv (fun a => Inv a /\ t_e2u a = t_e2u pr) _ _ _ _ _));
+      [split; [exact HI|reflexivity]|].
+    intros a [e en] Hin [Ha He]. apply In_map_to_list in Hin.
+    destruct (en_sync en) as [u|] eqn:E1; [|split; assumption].
+    destruct (en_comps en !! t) as [c|] eqn:E2; [|split; assumption].
+    destruct (negb (memN t (en_excl en)) && ((last <? c_changed c) || (last <? en_sync_added en))) eqn:E3;
+      [|split; assumption].
+    apply andb_true_iff in E3 as [E3 _]. apply negb_true_iff in E3.
+    assert (Hne : ~ In t (en_excl en)) by (intros Hx; apply memN_In in Hx; congruence).
+    destruct (c_val c) as [n|j p|j p] eqn:Ev; (split; [apply Inv_signal; [exact Ha|]|rewrite signal_e2u; exact He]);
+      apply Hw; exists e, en, c; rewrite Ev; cbn [fst snd];
+      (split; [exact Hin|split; [exact E1|split; [exact E2|split; [exact Hne|]]]]).
+    - split; reflexivity.
+    - split; [reflexivity|]. unfold to_skinned_mapper. rewrite He. reflexivity.
+    - split; reflexivity.
+  Qed.
+
+  Lemma Inv_react_components server pr : Inv pr -> Inv (react_on_changed_components server pr).
+  Proof.
+    intros HI. unfold react_on_changed_components. cbv zeta. apply foldl_inv.
+    - apply Inv_set_queue; [exact HI|intros x []].
+    - intros a [[u t] v] Hin Ha.
+      destruct server; [apply Inv_broadcast|apply Inv_send_up]; try exact Ha;
+        right; left; eapply (i_queue pr HI); eassumption.
+  Qed.
+
+  Lemma Inv_react_assets server k pr :
+    Inv pr -> kind_on k = true -> Inv (react_on_changed_assets server k pr).
+  Proof.
+    intros HI Hk. unfold react_on_changed_assets. cbv zeta. apply foldl_inv; [irr|].
+    intros a [k0 a0] _ Ha. destruct (a_store a !! akey k a0) as [v|]; [|exact Ha].
+    destruct (memN a0 (t_htok a)); [irr|].
+    destruct k as [|c].
+    - destruct server; [apply Inv_broadcast|apply Inv_send_up]; try exact Ha; right; exact Hk.
+    - cbv zeta. destruct server; [apply Inv_broadcast|apply Inv_send_up]; try irr;
+        right; (split; [exact Hk|exact (i_id a Ha)]).
+  Qed.
+
+  Lemma Inv_process_assets pr c done : Inv pr -> Inv (process_assets pr c done).
+  Proof.
+    intros HI. unfold process_assets. apply foldl_inv; [exact HI|].
+    intros a [[c' a0] v] _ Ha. dm; [|exact Ha]. cbv zeta. unfold insert_asset. irr.
+  Qed.
+
+  Lemma Inv_promote_reader pr : Inv pr -> Inv (promote_reader pr).
+  Proof.
+    intros HI. unfold promote_reader. cbv zeta. apply foldl_inv; [irr|].
+    intros a c _ Ha. apply Inv_send; [exact Ha|exact I].
+  Qed.
+
+  Lemma Inv_fix_system pr k last trigger without companions :
+    Inv pr -> Inv (fix_system pr k last trigger without companions).
+  Proof.
+    intros HI. unfold fix_system. apply foldl_inv; [exact HI|].
+    intros a [e en] _ Ha. repeat dm; try exact Ha. apply Inv_push_cmd; [exact Ha|exact I].
+  Qed.
+
+  Lemma Inv_request_asset pr c a owner : Inv pr -> Inv (request_asset pr c a owner).
+  Proof. intros HI. unfold request_asset. dm; [exact HI|irr]. Qed.
+
+  Lemma Inv_server_received pr k from m : Inv pr -> inb m -> Inv (server_received pr k from m).
+  Proof.
+    intros HI Hm. destruct m; unfold server_received; cbv beta iota zeta.
+    - (* MSpawn *) pose proof (inb_spawn _ Hm) as Hu. pose proof (i_next pr HI) as Hn.
+      apply Inv_relay_except; [|apply inb_msg_ok; exact Hm].
+      apply Inv_track; [|exact Hu|apply fresh_key; exact Hn].
+      apply Inv_push_cmd; [|exact Hu]. peel_irr. apply Inv_set_next; [exact HI|lia].
+    - (* MParented *) apply Inv_push_cmd; [exact HI|exact Hm].
+    - (* MDelete *) apply Inv_relay_except; [|apply inb_msg_ok; exact Hm].
+      destruct (t_u2e pr !! u) as [e|]; [|exact HI]. destruct (cmd_get_entity pr e); [|exact HI].
+      apply Inv_untrack. apply Inv_push_cmd; [exact HI|exact I].
+    - (* MComp *) destruct (t_u2e pr !! u) as [e|]; [|exact HI].
+      apply Inv_push_cmd; [exact HI|]. split; [intros _; exact Hm|eapply inb_vt; exact Hm].
+    - (* MMaterial *) apply Inv_push_cmd; [exact HI|]. intros _. exact Hm.
+    - (* MAsset *) apply Inv_push_cmd; [apply Inv_request_asset; exact HI|exact Hm].
+    - exact HI.
+    - (* MNewHost *) apply Inv_push_cmd; [|exact I]. apply Inv_relay_except; [|exact I]. irr.
+    - apply Inv_push_cmd; [exact HI|exact I].
+    - exact HI.
+  Qed.
+
+  Lemma Inv_client_received pr k m : Inv pr -> inb m -> Inv (client_received pr k m).
+  Proof.
+    intros HI Hm. destruct m; unfold client_received; cbv beta iota zeta.
+    - (* MSpawn *) pose proof (inb_spawn _ Hm) as Hu. pose proof (i_next pr HI) as Hn.
+      match goal with |- Inv (if ?b then _ else _) => destruct b end; [exact HI|].
+      apply Inv_track; [|exact Hu|apply fresh_key; exact Hn].
+      apply Inv_push_cmd; [|exact Hu]. peel_irr. apply Inv_set_next; [exact HI|lia].
+    - (* MParented *) repeat dm; try exact HI. apply Inv_push_cmd; [exact HI|exact I].
+    - (* MDelete *) destruct (t_u2e pr !! u) as [e|]; [|exact HI]. destruct (cmd_get_entity pr e); [|exact HI].
+      apply Inv_push_cmd; [|exact I]. apply Inv_untrack. exact HI.
+    - (* MComp *) destruct (t_u2e pr !! u) as [e|]; [|exact HI].
+      apply Inv_push_cmd; [exact HI|]. split; [intros Hx; exfalso; apply Hx; reflexivity|eapply inb_vt; exact Hm].
+    - (* MMaterial *) apply Inv_push_cmd; [exact HI|]. intros Hx. exfalso. apply Hx. reflexivity.
+    - (* MAsset *) apply Inv_request_asset; exact HI.
+    - apply Inv_push_cmd; [exact HI|exact I].
+    - (* MNewHost *) peel_irr. apply Inv_push_cmd; [|exact I]. apply Inv_push_cmd; [|exact I]. irr.
+    - exact HI.
+    - irr.
+  Qed.
+
+  Lemma Inv_pop_inbox pr from m pr' :
+    pop_inbox pr from = Some (m, pr') -> Inv pr -> Inv pr' /\ inb m.
+  Proof.
+    unfold pop_inbox. intros Hp HI. destruct (n_inbox pr !! from) as [[|m0 rest]|] eqn:E; try discriminate.
+    injection Hp as <- <-. split.
+    - apply Inv_set_inbox; [exact HI|]. intros from' l m' Hl Hin.
+      destruct (decide (from' = from)) as [->|Hne].
+      + rewrite lookup_insert in Hl. injection Hl as <-. eapply i_inbox; [exact HI|exact E|right; exact Hin].
+      + rewrite lookup_insert_ne in Hl by congruence. eapply i_inbox; eassumption.
+    - eapply i_inbox; [exact HI|exact E|left; reflexivity].
+  Qed.
+
+  Lemma Inv_server_poll pr k froms : Inv pr -> Inv (server_poll pr k froms).
+  Proof.
+    intros HI. unfold server_poll. apply foldl_inv; [exact HI|].
+    intros a from _ Ha. destruct (pop_inbox a from) as [[m a']|] eqn:E; [|exact Ha].
+    destruct (Inv_pop_inbox _ _ _ _ E Ha). apply Inv_server_received; assumption.
+  Qed.
+
+  Lemma Inv_client_poll pr k host n : Inv pr -> Inv (client_poll pr k host n).
+  Proof.
+    intros HI. unfold client_poll. apply foldl_inv; [exact HI|].
+    intros a from _ Ha. destruct (pop_inbox a host) as [[m a']|] eqn:E; [|exact Ha].
+    destruct (Inv_pop_inbox _ _ _ _ E Ha). apply Inv_client_received; assumption.
+  Qed.
+
+  Lemma Inv_client_connected pr k : Inv pr -> Inv (client_connected pr k).
+  Proof.
+    intros HI. unfold client_connected. cbv zeta. apply foldl_inv; [irr|].
+    intros a [connected c] _ Ha. repeat dm; try exact Ha; (apply Inv_push_cmd; [irr|exact I]).
+  Qed.
+
+  Lemma Inv_verify_client_connected pr k : Inv pr -> Inv (verify_client_connected pr k).
+  Proof.
+    intros HI. unfold verify_client_connected. destruct (n_status pr); try exact HI. cbv zeta.
+    dm; [apply Inv_push_cmd; [irr|exact I]|irr].
+  Qed.
+
+  Lemma Inv_run_body pr s o :
+    Inv pr -> (forall t, s = SDetect t -> forall x, detect_witness pr t x -> qP x) ->
+    asset_gate mat mesh audio s -> Inv (run_body pr s o).
+  Proof.
+    intros HI Hd Hg. unfold run_body, begin_run, end_run. cbv beta iota zeta. peel_irr.
+    assert (HI' : Inv (pr <| p_tick := p_tick pr + 1 |>)) by irr.
+    destruct s; cbv beta iota;
+      try (apply Inv_fix_system; exact HI');
+      try (apply Inv_react_assets; [exact HI'|exact Hg]).
+    - irr.
+    - irr.
+    - apply Inv_entity_removed_server; exact HI'.
+    - apply Inv_entity_created; exact HI'.
+    - apply Inv_entity_parented_server; exact HI'.
+    - apply Inv_react_components; exact HI'.
+    - apply Inv_promote_reader; exact HI'.
+    - apply Inv_client_connected; exact HI'.
+    - apply Inv_server_poll; exact HI'.
+    - irr.
+    - apply Inv_verify_client_connected; exact HI'.
+    - irr.
+    - apply Inv_entity_removed_client; exact HI'.
+    - apply Inv_entity_created; exact HI'.
+    - apply Inv_entity_parented_client; exact HI'.
+    - apply Inv_react_components; exact HI'.
+    - dm; [|exact HI']. dm. apply Inv_client_poll; exact HI'.
+    - apply Inv_process_assets; exact HI'.
+    - apply Inv_process_assets; exact HI'.
+    - apply Inv_process_assets; exact HI'.
+    - apply Inv_sync_detect; [exact HI'|]. exact (Hd t eq_refl).
+    - exact HI'.
+    - apply foldl_inv.
+      + apply Inv_set_app; [exact HI'|]. intros n c Hin. apply elem_of_list_In in Hin.
+        apply elem_of_list_filter in Hin as [_ Hin]. apply elem_of_list_In in Hin.
+        exact (i_app _ HI' _ _ Hin).
+      + intros a [n c] Hin Ha. apply Inv_push_cmd; [exact Ha|]. apply elem_of_list_In in Hin.
+        apply elem_of_list_filter in Hin as [_ Hin]. apply elem_of_list_In in Hin.
+        apply app_cmd_ok. exact (i_app _ HI' _ _ Hin).
+  Qed.
+
+  Lemma Inv_run_system pr s o :
+    Inv pr -> (forall t, s = SDetect t -> forall x, detect_witness pr t x -> qP x) ->
+    Inv (run_system pr s o).
+  Proof.
+    intros HI Hd. unfold run_system. destruct (p_panic pr); [exact HI|]. cbv zeta.
+    destruct s; cbv beta iota;
+      unfold cond_resource_added, cond_resource_removed, begin_run, end_run; cbv beta iota zeta;
+      try (apply Inv_flush; exact HI);
+      try (apply Inv_run_body; [exact HI|intros ? ?; discriminate|exact I]).
+    all: try (repeat dm;
+              first [exact HI | irr
+                    | apply Inv_run_body; [first [exact HI|irr]|intros ? ?; discriminate|exact I]]).
+    - (* SSrvMat *) destruct (server_gate pr && t_mat pr) eqn:G; [|exact HI].
+      apply andb_true_iff in G as [_ G]. apply Inv_run_body; [exact HI|intros ? ?; discriminate|].
+      simpl. rewrite <- (i_mat pr HI). exact G.
+    - (* SSrvImg *) destruct (server_gate pr && t_mat pr) eqn:G; [|exact HI].
+      apply andb_true_iff in G as [_ G]. apply Inv_run_body; [exact HI|intros ? ?; discriminate|].
+      simpl. rewrite <- (i_mat pr HI). exact G.
+    - (* SSrvMesh *) destruct (server_gate pr && t_mesh pr) eqn:G; [|exact HI].
+      apply andb_true_iff in G as [_ G]. apply Inv_run_body; [exact HI|intros ? ?; discriminate|].
+      simpl. rewrite <- (i_mesh pr HI). exact G.
+    - (* SSrvAudio *) destruct (server_gate pr && t_audio pr) eqn:G; [|exact HI].
+      apply andb_true_iff in G as [_ G]. apply Inv_run_body; [exact HI|intros ? ?; discriminate|].
+      simpl. rewrite <- (i_audio pr HI). exact G.
+    - (* SCliMat *) destruct (client_gate pr && t_mat pr) eqn:G; [|exact HI].
+      apply andb_true_iff in G as [_ G]. apply Inv_run_body; [exact HI|intros ? ?; discriminate|].
+      simpl. rewrite <- (i_mat pr HI). exact G.
+    - (* SCliImg *) destruct (client_gate pr && t_mat pr) eqn:G; [|exact HI].
+      apply andb_true_iff in G as [_ G]. apply Inv_run_body; [exact HI|intros ? ?; discriminate|].
+      simpl. rewrite <- (i_mat pr HI). exact G.
+    - (* SCliMesh *) destruct (client_gate pr && t_mesh pr) eqn:G; [|exact HI].
+      apply andb_true_iff in G as [_ G]. apply Inv_run_body; [exact HI|intros ? ?; discriminate|].
+      simpl. rewrite <- (i_mesh pr HI). exact G.
+    - (* SCliAudio *) destruct (client_gate pr && t_audio pr) eqn:G; [|exact HI].
+      apply andb_true_iff in G as [_ G]. apply Inv_run_body; [exact HI|intros ? ?; discriminate|].
+      simpl. rewrite <- (i_audio pr HI). exact G.
+    - (* SDetect *) apply Inv_run_body; [exact HI|exact Hd|exact I].
+  Qed.
+
+  Lemma Inv_pre_update pr o : Inv pr -> Inv (pre_update pr o).
+  Proof. intros HI. unfold pre_update. cbv zeta. destruct (fo_status o); irr. Qed.
+
+  Lemma Inv_state_transition pr : Inv pr -> Inv (state_transition pr).
+  Proof.
+    intros HI. unfold state_transition. cbv zeta.
+    destruct (s_next_client pr); cbv beta iota;
+      (match goal with |- Inv (match ?x with _ => _ end) => destruct x end; [|first [exact HI|irr]]);
+      (match goal with |- Inv (if ?b then _ else _) => destruct b end;
+       [apply Inv_send_up; [irr|exact I]|irr]).
+  Qed.
+
+  Lemma Inv_last_schedule pr : Inv pr -> Inv (last_schedule pr).
+  Proof. intros HI. unfold last_schedule. irr. Qed.
+
+  Lemma Inv_frame_start pr o : Inv (pr <| p_out := [] |>) -> Inv (frame_start pr o).
+  Proof. intros HI. unfold frame_start. apply Inv_state_transition, Inv_pre_update, HI. Qed.
+
+  Lemma Inv_run_systems st o l :
+    Inv st ->
+    (forall pre t post x, l = pre ++ SDetect t :: post ->
+       Inv (foldl (fun pr s => run_system pr s o) st pre) ->
+       detect_witness (foldl (fun pr s => run_system pr s o) st pre) t x -> qP x) ->
+    Inv (foldl (fun pr s => run_system pr s o) st l).
+  Proof.
+    intros Hst. induction l as [|s l IH] using rev_ind; intros Hd; [exact Hst|].
+    rewrite foldl_app. cbn [foldl].
+    assert (IH' : Inv (foldl (fun pr s => run_system pr s o) st l)).
+    { apply IH. intros pre t post x -> HI Hw. eapply (Hd pre t (post ++ [s])); [|exact HI|exact Hw].
+      rewrite <- app_assoc. reflexivity. }
+    apply Inv_run_system; [exact IH'|]. intros t -> x Hw. eapply (Hd l t []); [reflexivity|exact IH'|exact Hw].
+  Qed.
+
+  Lemma Inv_frame pr o :
+    p_panic pr = None -> Inv (pr <| p_out := [] |>) ->
+    (forall pre t post x, order = pre ++ SDetect t :: post ->
+       Inv (frame_mid pr o pre) -> detect_witness (frame_mid pr o pre) t x -> qP x) ->
+    Inv (frame pr o).
+  Proof.
+    intros Hp HI Hd. rewrite (frame_unfold pr o Hp). apply Inv_frame_start with (o := o) in HI.
+    rewrite (i_order _ HI). apply Inv_last_schedule.
+    assert (Hm : Inv (frame_mid pr o order)) by (apply Inv_run_systems; [exact HI|exact Hd]).
+    destruct (p_panic (frame_mid pr o order)); [exact Hm|apply Inv_flush; exact Hm].
+  Qed.
+
+  (* what a detection-time witness implies, given the invariant of that state *)
+  Lemma witness_base pr t x :
+    Inv pr -> In t types -> detect_witness pr t x ->
+    known x.1.1 /\ comp_opted x.1.2 /\ not_skin x.2.
+  Proof.
+    intros HI Ht (e & en & c & Hl & Hs & Hc & _ & Hm).
+    destruct (i_ents pr HI _ _ Hl) as (Hk & _ & Hty). specialize (Hty _ _ Hc).
+    split; [apply Hk; exact Hs|].
+    destruct (c_val c) as [n|j p|j p]; destruct Hm as [-> ->].
+    - split; [left; exact Ht|exact I].
+    - split; [right; split; [reflexivity|eapply vt_skinreg; eassumption]|exact I].
+    - split; [left; exact Ht|exact I].
   Qed.
 
 End invariant.
